@@ -1,8 +1,10 @@
 #!/usr/bin/env python3
 """Apply every seeded change under /verif/seeded/<id>/ to /repo in turn, run the check of its property (quick tier,
 seeds 1..3 until one fires), revert, and write what was observed into seeded/<id>/meta.json and seeded/RESULTS.md.
-usage: tools/run_seeds.py [ids...] [--also C03,C05]      (must not run concurrently with other checks: /repo is patched)"""
-import json, os, re, subprocess, sys, time
+usage: tools/run_seeds.py [ids...] [--also C03,C05]      (must not run concurrently with other checks: /repo is patched)
+       tools/run_seeds.py --copy [ids...]   patches a scratch copy of /repo's HEAD instead (VERIF_REPO), evidence of those runs goes to a
+                                            scratch directory: several of these may run side by side, /repo and evidence/ stay untouched"""
+import json, os, re, shutil, subprocess, sys, tempfile, time
 
 V = os.path.dirname(os.path.dirname(os.path.abspath(__file__)))
 REPO = os.environ.get("VERIF_REPO", "/repo")
@@ -22,6 +24,7 @@ def main():
                 extra.setdefault(s, []).append(c)
     head = sh("git -C %s rev-parse --short HEAD" % REPO).stdout.strip()
     dirty = sh("git -C %s status --porcelain -uno" % REPO).stdout.strip()
+    copy = "--copy" in sys.argv
     if dirty:
         print("refusing: %s has uncommitted changes\n%s" % (REPO, dirty))
         return 2
@@ -30,7 +33,15 @@ def main():
         d = "%s/seeded/%s" % (V, sid)
         am = json.load(open(d + "/agent_meta.json")) if os.path.exists(d + "/agent_meta.json") else {}
         ran = []
-        r = sh("git -C %s apply %s/patch.diff" % (REPO, d))
+        env = None
+        if copy:
+            scratch = tempfile.mkdtemp(prefix="seedcopy.")
+            os.makedirs(scratch + "/repo"); os.makedirs(scratch + "/evidence")
+            sh("git -C %s archive HEAD | tar -x -C %s/repo" % (REPO, scratch))
+            r = sh("cd %s/repo && patch -p1 -s < %s/patch.diff" % (scratch, d))
+            env = dict(os.environ, VERIF_REPO=scratch + "/repo", VERIF_EVIDENCE_DIR=scratch + "/evidence")
+        else:
+            r = sh("git -C %s apply %s/patch.diff" % (REPO, d))
         if r.returncode:
             print(sid, "patch does not apply:", r.stdout)
             rows.append((sid, "-", "patch does not apply", ""))
@@ -40,7 +51,7 @@ def main():
             for chk in [sid[:3]] + extra.get(sid, []):
                 for seed in (1, 2, 3):
                     t0 = time.time()
-                    r = sh("python3 %s/check %s --tier quick --seed %d" % (V, chk, seed))
+                    r = sh("python3 %s/check %s --tier quick --seed %d" % (V, chk, seed), env=env)
                     sigs = re.findall(r"signature: (\S+)", r.stdout)
                     viol = [l for l in r.stdout.splitlines() if l.startswith("VIOLATION")]
                     ran.append({"cmd": "git -C /repo apply seeded/%s/patch.diff; ./check %s --tier quick --seed %d" % (sid, chk, seed),
@@ -51,7 +62,10 @@ def main():
                         caught_by[chk] = {"seed": seed, "signatures": sorted(set(sigs))[:6]}
                         break
         finally:
-            sh("git -C %s checkout -- ." % REPO)
+            if copy:
+                shutil.rmtree(scratch, ignore_errors=True)
+            else:
+                sh("git -C %s checkout -- ." % REPO)
         meta = {
             "property": sid[:3],
             "summary": am.get("summary") or am.get("change") or am.get("what") or "",
